@@ -23,6 +23,7 @@ type Event struct {
 	N     int    // bytes reported
 	Err   string
 	Fault string // injected fault kind, if this call was the faulted one
+	Handle int   // which opened file the call belongs to (0 for filesystem-level calls)
 }
 
 func (e Event) String() string {
@@ -63,6 +64,7 @@ type Fs struct {
 	count int
 	Hit   bool // the planned fault was reached
 	HitOp string
+	handles int
 }
 
 func NewFs(inner afero.Fs) *Fs { return &Fs{Inner: inner} }
@@ -74,6 +76,8 @@ func (f *Fs) Events() []Event { f.mu.Lock(); defer f.mu.Unlock(); return append(
 func (f *Fs) Calls() int { f.mu.Lock(); defer f.mu.Unlock(); return f.count }
 
 func (f *Fs) rec(e Event) { f.mu.Lock(); f.Trace = append(f.Trace, e); f.mu.Unlock() }
+
+func (fl *File) rec(e Event) { e.Handle = fl.id; fl.fs.rec(e) }
 
 // should reports whether this (counted) call is to be faulted.
 func (f *Fs) should(op string) (bool, string) {
@@ -104,7 +108,15 @@ func (f *Fs) wrap(file afero.File, name string) afero.File {
 	if file == nil {
 		return nil
 	}
-	return &File{inner: file, fs: f, name: name}
+	f.mu.Lock()
+	f.handles++
+	id := f.handles
+	// the open event recorded just before gets the handle id
+	if n := len(f.Trace); n > 0 && f.Trace[n-1].Handle == 0 && f.Trace[n-1].Name == name {
+		f.Trace[n-1].Handle = id
+	}
+	f.mu.Unlock()
+	return &File{inner: file, fs: f, name: name, id: id}
 }
 
 func (f *Fs) Create(name string) (afero.File, error) {
@@ -199,16 +211,17 @@ type File struct {
 	inner afero.File
 	fs    *Fs
 	name  string
+	id    int
 }
 
 func (fl *File) Close() error {
 	if hit, m := fl.fs.should("Close"); hit && m != "short-read" {
 		fl.inner.Close()
-		fl.fs.rec(Event{Op: "Close", Name: fl.name, Err: ErrInjected.Error(), Fault: m})
+		fl.rec(Event{Op: "Close", Name: fl.name, Err: ErrInjected.Error(), Fault: m})
 		return ErrInjected
 	}
 	err := fl.inner.Close()
-	fl.fs.rec(Event{Op: "Close", Name: fl.name, Err: errStr(err)})
+	fl.rec(Event{Op: "Close", Name: fl.name, Err: errStr(err)})
 	return err
 }
 func (fl *File) Read(p []byte) (int, error) {
@@ -217,7 +230,7 @@ func (fl *File) Read(p []byte) (int, error) {
 		case "short-read": // legal io.Reader behaviour: fewer bytes, no error
 			if len(p) > 1 {
 				n, err := fl.inner.Read(p[:1])
-				fl.fs.rec(Event{Op: "Read", Name: fl.name, Len: len(p), N: n, Err: errStr(err), Fault: m})
+				fl.rec(Event{Op: "Read", Name: fl.name, Len: len(p), N: n, Err: errStr(err), Fault: m})
 				return n, err
 			}
 		case "short-error":
@@ -225,25 +238,25 @@ func (fl *File) Read(p []byte) (int, error) {
 			if len(p) > 1 {
 				n, _ = fl.inner.Read(p[:len(p)/2])
 			}
-			fl.fs.rec(Event{Op: "Read", Name: fl.name, Len: len(p), N: n, Err: ErrInjected.Error(), Fault: m})
+			fl.rec(Event{Op: "Read", Name: fl.name, Len: len(p), N: n, Err: ErrInjected.Error(), Fault: m})
 			return n, ErrInjected
 		default:
-			fl.fs.rec(Event{Op: "Read", Name: fl.name, Len: len(p), Err: ErrInjected.Error(), Fault: m})
+			fl.rec(Event{Op: "Read", Name: fl.name, Len: len(p), Err: ErrInjected.Error(), Fault: m})
 			return 0, ErrInjected
 		}
 	}
 	n, err := fl.inner.Read(p)
-	fl.fs.rec(Event{Op: "Read", Name: fl.name, Len: len(p), N: n, Err: errStr(err)})
+	fl.rec(Event{Op: "Read", Name: fl.name, Len: len(p), N: n, Err: errStr(err)})
 	return n, err
 }
 func (fl *File) ReadAt(p []byte, off int64) (int, error) {
 	n, err := fl.inner.ReadAt(p, off)
-	fl.fs.rec(Event{Op: "ReadAt", Name: fl.name, Len: len(p), N: n, Err: errStr(err)})
+	fl.rec(Event{Op: "ReadAt", Name: fl.name, Len: len(p), N: n, Err: errStr(err)})
 	return n, err
 }
 func (fl *File) Seek(off int64, wh int) (int64, error) {
 	n, err := fl.inner.Seek(off, wh)
-	fl.fs.rec(Event{Op: "Seek", Name: fl.name, Err: errStr(err)})
+	fl.rec(Event{Op: "Seek", Name: fl.name, Err: errStr(err)})
 	return n, err
 }
 func (fl *File) Write(p []byte) (int, error) {
@@ -255,59 +268,59 @@ func (fl *File) Write(p []byte) (int, error) {
 			if len(p) > 0 {
 				n, _ = fl.inner.Write(p[:len(p)-1])
 			}
-			fl.fs.rec(Event{Op: "Write", Name: fl.name, Data: data, Len: len(p), N: n, Fault: m})
+			fl.rec(Event{Op: "Write", Name: fl.name, Data: data, Len: len(p), N: n, Fault: m})
 			return n, nil
 		case "short-error":
 			n := 0
 			if len(p) > 1 {
 				n, _ = fl.inner.Write(p[:len(p)/2])
 			}
-			fl.fs.rec(Event{Op: "Write", Name: fl.name, Data: data, Len: len(p), N: n, Err: ErrInjected.Error(), Fault: m})
+			fl.rec(Event{Op: "Write", Name: fl.name, Data: data, Len: len(p), N: n, Err: ErrInjected.Error(), Fault: m})
 			return n, ErrInjected
 		default:
-			fl.fs.rec(Event{Op: "Write", Name: fl.name, Data: data, Len: len(p), Err: ErrInjected.Error(), Fault: m})
+			fl.rec(Event{Op: "Write", Name: fl.name, Data: data, Len: len(p), Err: ErrInjected.Error(), Fault: m})
 			return 0, ErrInjected
 		}
 	}
 	n, err := fl.inner.Write(p)
-	fl.fs.rec(Event{Op: "Write", Name: fl.name, Data: data, Len: len(p), N: n, Err: errStr(err)})
+	fl.rec(Event{Op: "Write", Name: fl.name, Data: data, Len: len(p), N: n, Err: errStr(err)})
 	return n, err
 }
 func (fl *File) WriteAt(p []byte, off int64) (int, error) {
 	n, err := fl.inner.WriteAt(p, off)
-	fl.fs.rec(Event{Op: "WriteAt", Name: fl.name, Data: append([]byte(nil), p...), Len: len(p), N: n, Err: errStr(err)})
+	fl.rec(Event{Op: "WriteAt", Name: fl.name, Data: append([]byte(nil), p...), Len: len(p), N: n, Err: errStr(err)})
 	return n, err
 }
 func (fl *File) Name() string { return fl.inner.Name() }
 func (fl *File) Readdir(c int) ([]os.FileInfo, error) {
-	fl.fs.rec(Event{Op: "Readdir", Name: fl.name})
+	fl.rec(Event{Op: "Readdir", Name: fl.name})
 	return fl.inner.Readdir(c)
 }
 func (fl *File) Readdirnames(n int) ([]string, error) {
-	fl.fs.rec(Event{Op: "Readdirnames", Name: fl.name})
+	fl.rec(Event{Op: "Readdirnames", Name: fl.name})
 	return fl.inner.Readdirnames(n)
 }
 func (fl *File) Stat() (os.FileInfo, error) {
 	if hit, m := fl.fs.should("FStat"); hit && m != "short-read" {
-		fl.fs.rec(Event{Op: "FStat", Name: fl.name, Err: ErrInjected.Error(), Fault: m})
+		fl.rec(Event{Op: "FStat", Name: fl.name, Err: ErrInjected.Error(), Fault: m})
 		return nil, ErrInjected
 	}
 	fi, err := fl.inner.Stat()
-	fl.fs.rec(Event{Op: "FStat", Name: fl.name, Err: errStr(err)})
+	fl.rec(Event{Op: "FStat", Name: fl.name, Err: errStr(err)})
 	return fi, err
 }
 func (fl *File) Sync() error {
 	err := fl.inner.Sync()
-	fl.fs.rec(Event{Op: "Sync", Name: fl.name, Err: errStr(err)})
+	fl.rec(Event{Op: "Sync", Name: fl.name, Err: errStr(err)})
 	return err
 }
 func (fl *File) Truncate(size int64) error {
 	err := fl.inner.Truncate(size)
-	fl.fs.rec(Event{Op: "Truncate", Name: fl.name, Err: errStr(err)})
+	fl.rec(Event{Op: "Truncate", Name: fl.name, Err: errStr(err)})
 	return err
 }
 func (fl *File) WriteString(s string) (int, error) {
 	n, err := fl.inner.WriteString(s)
-	fl.fs.rec(Event{Op: "WriteString", Name: fl.name, Data: []byte(s), Len: len(s), N: n, Err: errStr(err)})
+	fl.rec(Event{Op: "WriteString", Name: fl.name, Data: []byte(s), Len: len(s), N: n, Err: errStr(err)})
 	return n, err
 }
